@@ -179,6 +179,15 @@ def model_lines(lines, **kw):
     return run_lines([HYDRV], lines, **kw)
 
 
+def unjudged(*answers):
+    """True when an answer is only a resource-limit marker (chunk time limit, killed child): such a case is not judged"""
+    for x in answers:
+        if x is None: return True
+        if x == "TIMEOUT" or x.startswith("DIED") or x.endswith("END timeout") or x.endswith("END missing") or "END died" in x:
+            return True
+    return False
+
+
 def enc_text(s):
     return ",".join("%x" % ord(c) for c in s) if s else "-"
 
